@@ -608,8 +608,8 @@ def main():
                 cj, cv = first_violation(m, conf)
                 if cv is not None and m.violation_class(cv) == vc:
                     break
-                if cv is not None and m.violation_class(cv)[:2] == vc[:2] and loose is None:
-                    loose = (conf, cj, cv)
+                if cv is not None and (loose is None or (m.violation_class(cv)[:2] == vc[:2] and m.violation_class(loose[2])[:2] != vc[:2])):
+                    loose = (conf, cj, cv)  # prefer the same oracle on the same kind of op; else any violation
             if cv is not None and m.violation_class(cv) == vc:
                 break
             if loose is not None:
@@ -759,7 +759,7 @@ def replay(prop, m, path, repo, quiet=False):
     for attempt in range(1, 6 if rp.get("address_sensitive") else 2):
         res = run_lifetime(prop, lt, repo, rp.get("tier", "thorough"), table=tbl)
         _j, _v = first_violation(m, res)
-        if _v and (m.violation_class(_v) == rp["vclass"] or (rp.get("address_sensitive") and m.violation_class(_v)[:2] == rp["vclass"][:2])):
+        if _v and (m.violation_class(_v) == rp["vclass"] or rp.get("address_sensitive")):
             break
     if rp.get("address_sensitive") and not quiet:
         print(f"  (this failure depends on object addresses, which no seam controls; attempt {attempt} of at most 5)")
@@ -773,7 +773,7 @@ def replay(prop, m, path, repo, quiet=False):
             print(f"  -- history {si} (seed {seg['seed']}, arm {seg['cfg'].get('arm')})")
             for ln in m.describe(seg):
                 print("     ", ln)
-    if v and (m.violation_class(v) == rp["vclass"] or (rp.get("address_sensitive") and m.violation_class(v)[:2] == rp["vclass"][:2])):
+    if v and (m.violation_class(v) == rp["vclass"] or rp.get("address_sensitive")):
         same = [r.get("digest") for r in res if r is not None] == rp.get("digests")
         if not quiet:
             print("  violation:", json.dumps({k: v[k] for k in v if k not in ("before", "after", "history_fp", "reference_fp")}))
